@@ -114,6 +114,7 @@ def run(ctx):
     r114(ctx)
     r119_views(ctx)
     r126(ctx)
+    r127(ctx)
     r121(ctx)
     r122(ctx)
     r124(ctx)
@@ -536,6 +537,27 @@ def r126(ctx, rule='R1.26'):
                    'annotation %s promises dtype %s (converted_types.complex); the arm returns %s' % (mem, want.get(mem), bad or 'nothing'),
                    ct_mod.loc(st))
     ctx.floor(rule, 'integer annotation arms of converted_types.convert', n, 8)
+
+
+def r127(ctx, rule='R1.27'):
+    """the dict of output views holds the columns and, next to them, the internal label entries `<column>-catdef`.  Code
+    that treats the two kinds differently must tell them apart by more than the suffix of the key - a user's column may
+    be called `x-catdef` (known finding K01c: api.to_pandas does not slice such a column per row group,
+    core.read_row_group_arrays leaves it out of the columns to read)"""
+    n = 0
+    for mn, q in (('api', 'ParquetFile.to_pandas'), ('core', 'read_row_group_arrays')):
+        m = ctx.repo[mn]
+        f = m.func(q)
+        for c in ast.walk(f):
+            if isinstance(c, ast.Call) and isinstance(c.func, ast.Attribute) and c.func.attr == 'endswith' and c.args \
+                    and isinstance(c.args[0], ast.Constant) and c.args[0].value == '-catdef':
+                n += 1
+                # an accompanying test of the value's kind (isinstance ...) in the same expression would do
+                par = [x for x in ast.walk(f) if isinstance(x, (ast.BoolOp, ast.IfExp)) and any(y is c for y in ast.walk(x))]
+                typed = any('isinstance(' in norm(x) for x in par)
+                ctx.ob(rule, '%s.%s:label-entries-told-from-columns-by-more-than-a-name-suffix' % (mn, q), typed,
+                       '`%s` decides alone whether an entry of the views is a column' % norm(c), m.loc(c))
+    ctx.floor(rule, 'suffix tests on view keys', n, 2)
 
 
 def r114(ctx, rule='R1.14'):
